@@ -1,6 +1,6 @@
 SPECIFICATION Spec
 CONSTANTS MaxDigests = 12  MaxElems = 20
   Hashers <- HashersAll  ByteLens <- LensThorough  Kinds <- KindsAll  Ints <- IntsAll
-  Fields <- FieldsAll  Sels <- SelsThorough
+  Fields <- FieldsAll  LongElems <- LongThorough  Sels <- SelsThorough
 INVARIANT WellFormed Emit
 CHECK_DEADLOCK FALSE
